@@ -193,7 +193,7 @@ def res_code(res, call, extra):
         return ["logical :: zz_r"], ["zz_r = " + call, "call obs_l(zz_r)"]
     if isinstance(res, A.CharRes):
         return ["character :: zz_r"], ["zz_r = " + call, "call obs_i(int(ichar(zz_r), C_LONG_LONG))"]
-    if isinstance(res, A.CStrRes) and res.flen:
+    if isinstance(res, (A.CStrRes, A.StrRes)) and res.flen:
         return ["character(len=%d) :: zz_r" % res.flen], ["zz_r = " + call, "call obs_s(zz_r)"]
     if isinstance(res, (A.CStrRes, A.StrRes)):
         return ["character(len=:), allocatable :: zz_r"], ["zz_r = " + call, "call obs_s(zz_r)"]
